@@ -16,6 +16,8 @@ it failed to format) is written by `FmtVisitor::format_missing*`:
   * `process_missing_code` (`:326-369`)                                                     → `processMissingCode`
   * `count_lf_crlf` (`utils.rs:323-336`), `is_last_comment_block` (`comment.rs:145`)
   * `FmtVisitor::close_block` (`visitor.rs:254-370`)                                        → `closeBlock`
+    (`mk_sp` swaps inverted ends; `snippet_in_between` is taken from the span's own snippet, of which it
+    is a part)
 
 Texts are `List Char`; **every position is a byte offset into the UTF-8 text**, as in the code
 (`utf8Len` of the characters in front of it).  A Rust slice `&s[a..b]` panics when `a` or `b` is not on a
@@ -249,11 +251,11 @@ def commentHead (env : Env) (snippet bigPrefix : List Char) (v : Vis) : Option (
     | .error _ => none
     | .ok ci => some (v1, ci, false)
 
-/-- The middle of `process_comment` (`:266-300`): the comment itself. -/
-def commentBody (env : Env) (subslice : List Char) (v1 : Vis) (commentIndent : Indent)
+/-- How a comment slice is written, shared by `process_comment` (`:274-300`) and `close_block`
+(`visitor.rs:288-311`, `:339-343`): through `rewrite_comment` with `shape`, or — `onSameLine`, style
+edition 2024 — the first line as it stands and the other lines, behind `nlIndent`, rewritten. -/
+def commentLines (env : Env) (subslice : List Char) (v1 : Vis) (nlIndent : Indent) (shape : Shape)
     (onSameLine : Bool) : Option Vis :=
-  let commentWidth := min env.config.comment_width (env.config.max_width - v1.blockIndent.width)
-  let commentShape := Shape.legacy commentWidth commentIndent
   if onSameLine then
     match findChar (· == '\n') subslice with
     | none => some (v1.push .comment subslice)
@@ -261,14 +263,19 @@ def commentBody (env : Env) (subslice : List Char) (v1 : Vis) (commentIndent : I
       if off + 1 = utf8Len subslice then
         (takeBytes? off subslice).map (v1.push .comment)
       else
-        match takeBytes? off subslice, indentNl? env commentIndent, dropBytes? (off + 1) subslice with
+        match takeBytes? off subslice, indentNl? env nlIndent, dropBytes? (off + 1) subslice with
         | some firstLine, some nl, some rest =>
           -- behind a line comment a comment of its own starts: its indentation is dropped
           let otherLines := if startsWith subslice ['/', '/'] then trimStart rest else rest
-          some (((v1.push .comment firstLine).push .blank nl).push .comment
-            (rcOr env otherLines commentShape))
+          some (((v1.push .comment firstLine).push .blank nl).push .comment (rcOr env otherLines shape))
         | _, _, _ => none
-  else some (v1.push .comment (rcOr env subslice commentShape))
+  else some (v1.push .comment (rcOr env subslice shape))
+
+/-- The middle of `process_comment` (`:266-300`): the comment itself. -/
+def commentBody (env : Env) (subslice : List Char) (v1 : Vis) (commentIndent : Indent)
+    (onSameLine : Bool) : Option Vis :=
+  let commentWidth := min env.config.comment_width (env.config.max_width - v1.blockIndent.width)
+  commentLines env subslice v1 commentIndent (Shape.legacy commentWidth commentIndent) onSameLine
 
 /-- `process_comment(status, snippet, big_snippet, offset, subslice)`; `bigPrefix` is
 `&big_snippet[..(offset + big_diff)]`. -/
@@ -386,6 +393,124 @@ def formatMissing (env : Env) (end_ : Nat) (v : Vis) : Option Vis :=
 def formatMissingIndent (env : Env) (shouldIndent : Bool) (end_ : Nat) (v : Vis) : Option Vis :=
   formatMissingInner env (.indent shouldIndent) end_ v
 
+/-! ## close_block (`visitor.rs:254-370`): the text between the last statement and the closing brace -/
+
+/-- `skip_normal`: blank, or nothing but `;` once trimmed. -/
+def skipNormal (s : List Char) : Bool := (trim s).isEmpty || (trim s).all (· == ';')
+
+/-- `Indent::block_unindent`; `none` = panic (cannot happen: the subtraction is guarded). -/
+def blockUnindent? (env : Env) (ind : Indent) : Option Indent :=
+  match ind.block_unindent env.config with
+  | .ok i => some i
+  | .error _ => none
+
+/-- The loop state of `close_block`: `last_hi` (relative to the span's start), `unindented`,
+`prev_ends_with_newline`, `extra_newline`. -/
+structure CbState where
+  lastHi : Nat
+  unindented : Bool
+  prevNl : Bool
+  extraNl : Bool
+  deriving DecidableEq, Repr
+
+/-- `if !unindented && unindent_comment && !align_to_right { unindented = true; block_unindent }`. -/
+def cbUnindent (env : Env) (unindentComment alignToRight : Bool) (cs : CbState) (v : Vis) :
+    Option (Bool × Vis) :=
+  if !cs.unindented && unindentComment && !alignToRight then
+    (blockUnindent? env v.blockIndent).map fun i => (true, { v with blockIndent := i })
+  else some (cs.unindented, v)
+
+/-- Below style edition 2024 (or a comment on a line of its own), `visitor.rs:313-337`: whether the
+comment stays on the line, what is pushed in front of it, and the shape `rewrite_comment` gets. -/
+def cbOldHead (env : Env) (between : List Char) (sameLine extraNl : Bool) (shape0 : Shape) (v : Vis) :
+    Option (Vis × Shape) :=
+  -- `comment_shape.visual_indent(offset_len).sub_width_opt(offset_len)`
+  let (sameLine, shape) :=
+    if sameLine then
+      let offsetLen := 1 + (lastLineWidth env v.buffer - v.blockIndent.width)
+      match (shape0.visual_indent offsetLen).sub_width_opt offsetLen with
+      | some shp => (true, shp)
+      | none => (false, shape0)
+    else (false, shape0)
+  if sameLine then some (v.push .blank [' '], shape)
+  else
+    let v := if RF.Newline.countNewlines between ≥ 2 || extraNl then v.push .blank ['\n'] else v
+    (indentNl? env v.blockIndent).map fun nl => (v.push .blank nl, shape)
+
+/-- The `Comment` arm of the loop: `sub` is the comment slice at byte `offset` of `commentSnippet`. -/
+def cbComment (env : Env) (commentSnippet : List Char) (unindentComment alignToRight : Bool)
+    (offset : Nat) (sub : List Char) (cs : CbState) (v : Vis) : Option (CbState × Vis) :=
+  match cbUnindent env unindentComment alignToRight cs v with
+  | none => none
+  | some (unindented, v) =>
+    match sliceBytes? commentSnippet cs.lastHi offset with
+    | none => none
+    | some between =>
+      let sameLine := !(between.contains '\n')
+      let shape0 := (Shape.indented v.blockIndent env.config).comment env.config
+      let written : Option Vis :=
+        if env.ed2024 && sameLine then
+          commentLines env sub (v.push .blank [' ']) v.blockIndent shape0 true
+        else
+          match cbOldHead env between sameLine cs.extraNl shape0 v with
+          | none => none
+          | some (v, shape) => commentLines env sub v v.blockIndent shape false
+      match written with
+      | none => none
+      | some v =>
+        some ({ lastHi := offset + utf8Len sub, unindented := unindented,
+                prevNl := sub.getLast? == some '\n', extraNl := false }, v)
+
+/-- One turn of the loop over `CommentCodeSlices::new(comment_snippet)`. -/
+def cbStep (env : Env) (commentSnippet : List Char) (unindentComment alignToRight : Bool) (sl : Slice)
+    (cs : CbState) (v : Vis) : Option (CbState × Vis) :=
+  if sl.kind = .comment then
+    cbComment env commentSnippet unindentComment alignToRight sl.start sl.text cs v
+  else if skipNormal sl.text then
+    -- `continue`: `prev_ends_with_newline` and `last_hi` stay
+    some ({ cs with extraNl := cs.prevNl && sl.text.contains '\n' }, v)
+  else
+    match indentNl? env v.blockIndent with
+    | none => none
+    | some nl =>
+      some ({ cs with lastHi := sl.start + utf8Len sl.text, prevNl := sl.text.getLast? == some '\n',
+                      extraNl := false },
+        (v.push .blank nl).push .code (trim sl.text))
+
+def cbLoop (env : Env) (commentSnippet : List Char) (unindentComment alignToRight : Bool) :
+    List Slice → CbState → Vis → Option (CbState × Vis)
+  | [], cs, v => some (cs, v)
+  | sl :: rest, cs, v =>
+    match cbStep env commentSnippet unindentComment alignToRight sl cs v with
+    | none => none
+    | some (cs1, v1) => cbLoop env commentSnippet unindentComment alignToRight rest cs1 v1
+
+/-- `close_block(span, unindent_comment)` with `span = lo..hi` (relative to the file's text).
+`last_pos` is not touched (the caller sets it). -/
+def closeBlock (env : Env) (lo hi : Nat) (unindentComment : Bool) (v : Vis) : Option Vis :=
+  match sliceBytes? env.big (min lo hi) (max lo hi) with
+  | none => none
+  | some commentSnippet =>
+    let alignToRight :=
+      if unindentComment && containsComment commentSnippet then
+        let firstLines := commentSnippet.takeWhile (· != '/')
+        decide (lastLineWidth env firstLines > lastLineWidth env commentSnippet)
+      else false
+    match commentCodeSlices? commentSnippet with
+    | none => none
+    | some slices =>
+      match cbLoop env commentSnippet unindentComment alignToRight slices ⟨0, false, false, false⟩ v with
+      | none => none
+      | some (cs, v) =>
+        let ind := if cs.unindented then v.blockIndent.blockIndent env.config else v.blockIndent
+        match blockUnindent? env ind with
+        | none => none
+        | some ind =>
+          let v := { v with blockIndent := ind }
+          match indentNl? env v.blockIndent with
+          | none => none
+          | some nl => some ((v.push .blank nl).push .code ['}'])
+
 /-! ## Decidable oracles over what was written (used by the theorems and on the real code's output) -/
 
 /-- A text without its white space. -/
@@ -427,6 +552,17 @@ def commentsEmitted (snippet delta : List Char) : Bool :=
 /-- Only white space and the comments are written. -/
 def onlyBlanksAndComments (snippet delta : List Char) : Bool :=
   squeeze delta == ((commentTexts snippet).map squeeze).flatten
+
+/-- What `close_block` must write, blanks aside: the comments and the code of the snippet — without the
+slices that hold nothing but `;` — and the closing brace. -/
+def closeContent (snippet : List Char) : List Char :=
+  match commentCodeSlices? snippet with
+  | some sl =>
+    (sl.map fun s => if s.kind == .comment then squeeze s.text
+      else if skipNormal s.text then [] else squeeze s.text).flatten ++ ['}']
+  | none => ['}']
+
+def closeContentOk (snippet delta : List Char) : Bool := squeeze delta == closeContent snippet
 
 /-- A `\n` that is not inside a block comment or a string: `Normal`, or the end of a line comment. -/
 def isOuterNl (k : Kind) (c : Char) : Bool := c == '\n' && (k == .normal || k == .endComment)
